@@ -49,7 +49,30 @@ pub fn run_c01(a: &Args) {
         let mut rng = Rng::new(mix(a.seed, idx));
         let wmode = pick_wmode(&mut rng, true);
         let len = rng.range(1, maxlen);
-        let (names, ops) = gen_history(&mut rng, len, wmode, true);
+        let (names, mut ops) = gen_history(&mut rng, len, wmode, true);
+        if idx % 9 == 8 {
+            // a hub whose 33..70 neighbours are attached in an order unrelated to the order the
+            // nodes were created in, then duplicates of old, middle and recent hub edges
+            let hub = names[0].clone();
+            let deg = rng.range(33, 70);
+            let fillers: Vec<String> = (0..deg).map(|i| format!("h{:02}", i)).collect();
+            let mut pre = vec![Op::AddNodes(std::iter::once((hub.clone(), None)).chain(fillers.iter().map(|f| (f.clone(), None))).collect())];
+            let mut order: Vec<usize> = (0..deg).collect();
+            rng.shuffle(&mut order);
+            let hub_first = rng.coin();
+            for &i in &order {
+                let (x, y) = if hub_first { (&hub, &fillers[i]) } else { (&fillers[i], &hub) };
+                pre.push(Op::AddEdge(MEdge::new(x, y, draw_weight(wmode, &mut rng), None)));
+            }
+            for _ in 0..rng.range(2, 6) {
+                let f = &fillers[order[match rng.below(3) { 0 => rng.below(4), 1 => deg - 1 - rng.below(4), _ => rng.below(deg) }]];
+                let (x, y) = if hub_first != rng.chance(1, 4) { (&hub, f) } else { (f, &hub) };
+                pre.push(Op::AddEdge(MEdge::new(x, y, draw_weight(wmode, &mut rng), None)));
+            }
+            pre.extend(ops);
+            ops = pre;
+            ctx::count("reach:hub-with-33-or-more-neighbours");
+        }
         ctx::case_desc(history_desc(&specs, &ops));
         let lock = run_history(specs, &names, &ops, &mon);
         if !lock.tags.is_empty() {
@@ -646,6 +669,152 @@ pub fn run_c09(a: &Args) {
             }
         }
     }
+    // graphs of several thousand nodes, counted inside pools of 1, 2 and 4 threads
+    for k in 0..(if a.thorough { 8 } else { 2 }) {
+        if ctx::mine(total + k) {
+            c09_huge(a, k);
+        }
+    }
+}
+
+/// Degree tables of a 4200..9000-node graph (a wheel plus random edges, integer weights) against
+/// plain counting over the edge list, with the calls made inside caller-installed pools.
+fn c09_huge(a: &Args, k: u64) {
+    let mut rng = Rng::new(mix(a.seed ^ 0xC09_4096, k));
+    let directed = k % 2 == 0;
+    let multi = (k / 2) % 2 == 1;
+    let specs = Specs::kind(directed, multi, false);
+    let n = rng.range(4200, if a.thorough { 9000 } else { 6500 });
+    let names: Vec<String> = (0..n).map(|i| format!("v{:05}", i)).collect();
+    let mut pairs: Vec<(usize, usize, f64)> = vec![];
+    for i in 1..n {
+        let w = rng.range(1, 9) as f64;
+        if rng.coin() { pairs.push((0, i, w)) } else { pairs.push((i, 0, w)) }
+        pairs.push((i, if i + 1 < n { i + 1 } else { 1 }, rng.range(1, 9) as f64));
+    }
+    for _ in 0..2 * n {
+        let u = rng.below(n);
+        let v = rng.below(n);
+        if u != v {
+            pairs.push((u, v, rng.range(1, 9) as f64));
+        }
+    }
+    rng.shuffle(&mut pairs);
+    ctx::case_desc(json!({"shape": "wheel plus random edges", "n": n, "kind": specs.kind_label(), "seed_index": k}));
+    let mut g: G = Graph::new(specs.to_real());
+    for nm in &names {
+        g.add_node(graphrs::Node::from_name(nm.clone()));
+    }
+    for (u, v, w) in &pairs {
+        g.add_edge(std::sync::Arc::new(graphrs::Edge { u: names[*u].clone(), v: names[*v].clone(), attributes: None, weight: *w })).expect("permissive specs");
+    }
+    // expected tables from the graph's own edge list
+    let pos: std::collections::HashMap<&str, usize> = names.iter().enumerate().map(|(i, s)| (s.as_str(), i)).collect();
+    let (mut din, mut dout, mut win, mut wout) = (vec![0usize; n], vec![0usize; n], vec![0.0f64; n], vec![0.0f64; n]);
+    let edges = g.get_all_edges();
+    for e in &edges {
+        let (u, v) = (pos[e.u.as_str()], pos[e.v.as_str()]);
+        dout[u] += 1;
+        wout[u] += e.weight;
+        din[v] += 1;
+        win[v] += e.weight;
+    }
+    let me = edges.len();
+    let kind = kind_class(&g);
+    let fail = |func: &str, class: &str, detail: Value| {
+        ctx::violation(&format!("C09|{}|{}|{}", func, class, kind), &format!("{}: {}", func, class), json!({"detail": detail, "n": n, "edges": me}));
+    };
+    for threads in [1usize, 2, 4] {
+        let pool = rayon::ThreadPoolBuilder::new().num_threads(threads).build().expect("pool");
+        ctx::count(&format!("reach:more-than-4096-nodes:pool-of-{}", threads));
+        let r = guard("degree tables", || {
+            pool.install(|| {
+                (
+                    g.get_degree_for_all_nodes(),
+                    g.get_in_degree_for_all_nodes().ok(),
+                    g.get_out_degree_for_all_nodes().ok(),
+                    g.get_weighted_degree_for_all_nodes(),
+                    g.get_weighted_in_degree_for_all_nodes().ok(),
+                    g.get_weighted_out_degree_for_all_nodes().ok(),
+                    if n >= 2 { Some(degree::degree_centrality(&g)) } else { None },
+                    g.number_of_edges(),
+                    g.size(true),
+                    g.number_of_nodes(),
+                )
+            })
+        });
+        let (deg, ind, outd, wdeg, wind, woutd, dc, ne, sz, nn) = match r {
+            Ok(x) => x,
+            Err(c) => {
+                fail("degree tables", &c.class(), c.json());
+                continue;
+            }
+        };
+        ctx::eval(10);
+        if ne != me || nn != n {
+            fail("number_of_edges", "wrong-count", json!({"got": [nn, ne], "want": [n, me], "threads": threads}));
+        }
+        let wsum: f64 = edges.iter().map(|e| e.weight).sum();
+        if sz != wsum {
+            fail("size(true)", "not-the-weight-sum", json!({"got": sz, "want": wsum, "threads": threads}));
+        }
+        let mut dsum = 0usize;
+        for (i, nm) in names.iter().enumerate() {
+            let want = din[i] + dout[i];
+            let got = deg.get(nm).copied();
+            dsum += got.unwrap_or(0);
+            if got != Some(want) {
+                fail("get_degree_for_all_nodes", "differs-from-incident-edge-ends", json!({"node": nm, "got": got, "want": want, "threads": threads}));
+                break;
+            }
+            let gw = wdeg.get(nm).copied();
+            if gw != Some(win[i] + wout[i]) {
+                fail("get_weighted_degree_for_all_nodes", "differs-from-incident-weights", json!({"node": nm, "got": gw, "want": win[i] + wout[i], "threads": threads}));
+                break;
+            }
+            if directed {
+                let gi = ind.as_ref().and_then(|t| t.get(nm).copied());
+                let go = outd.as_ref().and_then(|t| t.get(nm).copied());
+                if gi != Some(din[i]) || go != Some(dout[i]) {
+                    fail("get_in_degree_for_all_nodes", "differs-from-edge-ends", json!({"node": nm, "got": [gi, go], "want": [din[i], dout[i]], "threads": threads}));
+                    break;
+                }
+                let gwi = wind.as_ref().and_then(|t| t.get(nm).copied());
+                let gwo = woutd.as_ref().and_then(|t| t.get(nm).copied());
+                if gwi != Some(win[i]) || gwo != Some(wout[i]) {
+                    fail("get_weighted_in_degree_for_all_nodes", "differs-from-edge-weights", json!({"node": nm, "got": [gwi, gwo], "want": [win[i], wout[i]], "threads": threads}));
+                    break;
+                }
+            }
+            if let Some(dc) = &dc {
+                let gc = dc.get(nm).copied().unwrap_or(f64::NAN);
+                if !approx(gc, want as f64 / (n as f64 - 1.0)) {
+                    fail("degree_centrality", "not-degree-over-n-minus-1", json!({"node": nm, "got": gc, "want": want as f64 / (n as f64 - 1.0), "threads": threads}));
+                    break;
+                }
+            }
+        }
+        if dsum != 2 * me || deg.len() != n {
+            fail("get_degree_for_all_nodes", "degree-sum-not-2m", json!({"sum": dsum, "m": me, "entries": deg.len(), "threads": threads}));
+        }
+        // per-node queries for the hub and a sample
+        let r = guard("get_node_degree", || {
+            pool.install(|| (0..60).map(|j| { let i = if j == 0 { 0 } else { (j * 7919) % n }; (i, g.get_node_degree(names[i].clone()), g.get_node_in_degree(names[i].clone()), g.get_node_out_degree(names[i].clone())) }).collect::<Vec<_>>())
+        });
+        match r {
+            Ok(rows) => {
+                for (i, d0, di, do_) in rows {
+                    if d0 != Some(din[i] + dout[i]) || (directed && (di != Some(din[i]) || do_ != Some(dout[i]))) {
+                        fail("get_node_degree", "differs-from-incident-edge-ends", json!({"node": names[i], "got": [d0, di, do_], "want": [din[i] + dout[i], din[i], dout[i]], "threads": threads}));
+                        break;
+                    }
+                }
+                ctx::eval(60);
+            }
+            Err(c) => fail("get_node_degree", &c.class(), c.json()),
+        }
+    }
+    ctx::nontrivial(fnv(format!("huge-{}-{}", n, k).as_bytes()));
 }
 
 // ============================================================================ C15
